@@ -72,6 +72,34 @@ def skel(op):
     return [k, ann_list(op)] + [skel(x) for x in kids]
 
 
+def alias_gap(op):
+    """True iff the real operator contains a two-member Product `W(X') @ X` / `X @ W(X')` (W = Transpose / Adjoint) whose
+    X' and X are structurally equal but DIFFERENT Python objects.  The code model identifies `is` with structural equality
+    (build.Builder shares equal sub-expressions); an operator the algebra itself creates (e.g. the ScalarMul of `-A`) can be
+    equal to an existing one without being it, and then the model's Gram inference says more than cola's -- such an input is
+    outside the modelling assumption and its annotations are not compared."""
+    import cola
+
+    def same(a, b):
+        if type(a) is not type(b) or a.shape != b.shape or a.dtype != b.dtype or skel(a) != skel(b):
+            return False
+        return np.array_equal(np.asarray(a.to_dense()), np.asarray(b.to_dense()))
+
+    def walk(o):
+        name = type(o).__name__.split("[")[0]
+        kids = list(getattr(o, "Ms", [])) if name in ("Product", "Sum", "Kronecker", "KronSum", "BlockDiag", "Concatenated") else \
+            ([o.A] if name in ("Transpose", "Adjoint", "Sliced") else [])
+        if name == "Product" and len(kids) == 2:
+            for w, x in ((kids[0], kids[1]), (kids[1], kids[0])):
+                if isinstance(w, (cola.ops.Transpose, cola.ops.Adjoint)) and w.A is not x and same(w.A, x):
+                    return True
+        return any(walk(k) for k in kids)
+    try:
+        return walk(op)
+    except Exception:  # noqa: BLE001
+        return False
+
+
 def py_ix(j):
     if "i" in j:
         return int(j["i"])
